@@ -204,12 +204,12 @@ func controllingConds(target, stop *ssa.BasicBlock) (out []struct {
 		if iff, ok := id.Instrs[len(id.Instrs)-1].(*ssa.If); ok {
 			t, f := id.Succs[0], id.Succs[1]
 			switch {
-			case t.Dominates(target) && len(t.Preds) == 1 && !f.Dominates(target):
+			case t != f && t.Dominates(target) && len(t.Preds) == 1:
 				out = append(out, struct {
 					cond ssa.Value
 					pol  bool
 				}{iff.Cond, true})
-			case f.Dominates(target) && len(f.Preds) == 1 && !t.Dominates(target):
+			case t != f && f.Dominates(target) && len(f.Preds) == 1:
 				out = append(out, struct {
 					cond ssa.Value
 					pol  bool
